@@ -17,6 +17,10 @@ pub struct SeqCase {
     /// call sequence: true = send, false = recv
     pub calls: Vec<bool>,
     pub peers: usize,
+    /// REP only: bit k set = the k-th request a raw peer supplies is malformed (its delimiter is
+    /// the last frame) and must be rejected without disturbing the lock-step state
+    #[serde(default)]
+    pub bad: u8,
 }
 
 fn show_calls(c: &[bool]) -> String {
@@ -45,6 +49,10 @@ pub fn seq_outcome(c: &SeqCase) -> Outcome {
         o.class("has-out-of-turn-call");
     }
     o.class(format!("{}-peers-{}", if c.req { "REQ" } else { "REP" }, c.peers));
+    if c.bad != 0 {
+        o.class("rep-with-malformed-requests");
+        o.nontrivial = true;
+    }
     let (r, panics) = capture_panics(|| {
         run_sim(async move {
             let c = c2;
@@ -130,13 +138,20 @@ pub fn seq_outcome(c: &SeqCase) -> Outcome {
                     // ---- recv
                     let a = sim.recv(s);
                     let mut want_req: Option<(usize, Vec<u8>)> = None;
+                    let mut bad_supplied = false;
                     if !c.req && c.peers > 0 {
                         // a raw REQ supplies a request whenever a recv is in flight
                         let p = supplied % c.peers;
+                        let is_bad = (c.bad >> (supplied % 8)) & 1 == 1;
                         supplied += 1;
-                        let body = format!("req-{}", supplied).into_bytes();
-                        links[p].raw_send_now(&[vec![], body.clone()]);
-                        want_req = Some((p, body));
+                        if is_bad {
+                            links[p].raw_send_now(&[b"route".to_vec(), vec![]]);
+                            bad_supplied = true;
+                        } else {
+                            let body = format!("req-{}", supplied).into_bytes();
+                            links[p].raw_send_now(&[vec![], body.clone()]);
+                            want_req = Some((p, body));
+                        }
                     }
                     let res = sim.run(a).await;
                     let grew = taps_grew(&links, &before);
@@ -179,6 +194,13 @@ pub fn seq_outcome(c: &SeqCase) -> Outcome {
                             }
                             (None, Ok(None)) => {
                                 sim.cancel(a);
+                            }
+                            // a malformed request is rejected (error) or dropped (recv keeps
+                            // waiting); either way the lock-step state does not move
+                            (None, Ok(Some(Out::Recv(Err(_))))) if bad_supplied => {}
+                            (None, Ok(Some(Out::Recv(Ok(m))))) if bad_supplied => {
+                                fail!(f, "C08/REP/malformed-request-accepted", "{}: a request whose delimiter is its last frame was handed to the application as {:?}", ctx_s, m);
+                                return f;
                             }
                             (w, other) => {
                                 fail!(f, "C08/REP/recv", "{}: expected request {:?}, got {:?}", ctx_s, w.map(|x| x.0), other.map(|o| o.map(|o| o.err_text().map(|s| s.to_string()))));
@@ -512,8 +534,15 @@ pub fn run(ctx: &Ctx) -> (Report, PropertyMeta) {
         for code in 0..(1usize << len) {
             let calls: Vec<bool> = (0..len).map(|i| (code >> i) & 1 == 1).collect();
             for peers in 0..=2 {
-                cases.push(SeqCase { req: true, calls: calls.clone(), peers });
-                cases.push(SeqCase { req: false, calls: calls.clone(), peers });
+                cases.push(SeqCase { req: true, calls: calls.clone(), peers, bad: 0 });
+                cases.push(SeqCase { req: false, calls: calls.clone(), peers, bad: 0 });
+                // REP with some malformed requests among the supplied ones
+                let recvs = calls.iter().filter(|c| !**c).count();
+                if peers > 0 && recvs > 0 && len <= 6 {
+                    for bad in 1..(1u32 << recvs.min(5)) {
+                        cases.push(SeqCase { req: false, calls: calls.clone(), peers, bad: bad as u8 });
+                    }
+                }
             }
         }
     }
@@ -552,14 +581,17 @@ pub fn run(ctx: &Ctx) -> (Report, PropertyMeta) {
     report.sections.push(json!({"part": "1..5 concurrent requesters (library REQ sockets or raw REQ peers) against one echoing library REP, generated actor/byte-delivery schedule, partial-write windows", "cases": n}));
     report.merge(r);
 
-    let total = report.evaluations;
+    if t == Tier::Thorough {
+        crate::fuzzing::campaign(ctx, &mut report, "sim", 180);
+    }
     health_abs(&mut report, "has-out-of-turn-call", 500);
+    health_abs(&mut report, "rep-with-malformed-requests", 500);
     health_abs(&mut report, "overlapping-requests", 500);
     health_abs(&mut report, "partial-writes", 300);
 
     let meta = PropertyMeta {
         level: "exploration",
-        rule: "(a) exhaustive call sequences over {send, recv} on REQ and REP with 0..2 peers run in lock-step with a reference state machine: an out-of-turn call must fail, hand the same message back (ReturnToSender), grow no connection's wire, and leave the machine's subsequent behaviour unchanged; an in-turn send must write exactly [empty]+message on exactly the right connection. (b) proptest histories with 1..5 concurrent requesters (library REQ sockets over harness pipes, or raw peers) against one echoing REP under generated scheduling, segmentation and partial writes: every client receives exactly the replies to its own tagged requests, in order, and each connection's wire carries only that client's replies. Non-trivial: (a) the sequence contains an out-of-turn call, (b) >= 2 clients with overlapping outstanding requests; distinct by case".into(),
+        rule: "(a) exhaustive call sequences over {send, recv} on REQ and REP with 0..2 peers (for REP also with every subset of the supplied requests malformed: delimiter last, which must be rejected or dropped without moving the state) run in lock-step with a reference state machine: an out-of-turn call must fail, hand the same message back (ReturnToSender), grow no connection's wire, and leave the machine's subsequent behaviour unchanged; an in-turn send must write exactly [empty]+message on exactly the right connection. (b) proptest histories with 1..5 concurrent requesters (library REQ sockets over harness pipes, or raw peers) against one echoing REP under generated scheduling, segmentation and partial writes: every client receives exactly the replies to its own tagged requests, in order, and each connection's wire carries only that client's replies. Non-trivial: (a) the sequence contains an out-of-turn call, (b) >= 2 clients with overlapping outstanding requests; distinct by case".into(),
         assumptions: vec!["a second recv on a REP that already holds a request is not refused by the statement; the model lets it fetch the next request and makes the latest requester current".into()],
         exhaustive: false,
     };
@@ -573,4 +605,21 @@ pub fn replay(_ctx: &Ctx, kind: &str, case: &Value) -> Vec<Failure> {
         _ => Err(vec![Failure::new("replay/unknown-kind", kind.to_string())]),
     }
     .unwrap_or_else(|e| e)
+}
+
+pub fn gen_conc_pub(s: &mut Src<'_>) -> ConcCase {
+    let k = s.range(1, 5);
+    let clients = (0..k)
+        .map(|_| ClientSpec {
+            lib: s.bool(),
+            requests: s.range(1, 4),
+            per_call: s.pick(&[0usize, 0, 1, 3, 17]),
+        })
+        .collect();
+    let slen = s.range(30, 250);
+    ConcCase {
+        clients,
+        schedule: (0..slen).map(|_| s.next()).collect(),
+        payload_len: s.pick(&[0usize, 5, 300, 9000]),
+    }
 }
